@@ -102,7 +102,7 @@ func loadStream(seed uint64, n int, tier string) {
 			emit(loadCase(spec, mk(r.Word(), 1+r.Intn(500))))
 			count("load.random")
 		}
-		for _, h := range []uint16{0x3FFE, 0xFFF0, 0x0800} {
+		for _, h := range []uint16{0x3FFE, 0xFFF0, 0x0800, 0x0000, 0x0010} {
 			emit(preloadCase(spec, h, payload(40)))
 			count("preload")
 		}
